@@ -24,12 +24,13 @@ A = 'astrodendro/analysis.py'
 # (label, file, old, new, expected: 'broken' | 'ok', a property whose obligations are looked at)
 CASES = [
     # ---- changes of meaning
-    ('min_delta child strict', P, '(_py(structure.height) - _py(structure.parent.height)) >= delta',
-     '(_py(structure.height) - _py(structure.parent.height)) > delta', 'broken', 'C07'),
-    ('min_delta merge uses vmin', P, 'return (_py(structure.vmax) - _py(value)) >= delta',
-     'return (_py(structure.vmin) - _py(value)) >= delta', 'broken', 'C04'),
-    ('min_delta orphan swapped', P, 'return (_py(structure.vmax) - _py(structure.vmin)) >= delta',
-     'return (_py(structure.vmin) - _py(structure.vmax)) >= delta', 'broken', 'C05'),
+    ('min_delta child strict', P, '_diff(_py(structure.height), _py(structure.parent.height)) >= delta',
+     '_diff(_py(structure.height), _py(structure.parent.height)) > delta', 'broken', 'C07'),
+    ('min_delta merge uses vmin', P, 'return _diff(_py(structure.vmax), _py(value)) >= delta',
+     'return _diff(_py(structure.vmin), _py(value)) >= delta', 'broken', 'C04'),
+    ('min_delta orphan swapped', P, 'return _diff(_py(structure.vmax), _py(structure.vmin)) >= delta',
+     'return _diff(_py(structure.vmin), _py(structure.vmax)) >= delta', 'broken', 'C05'),
+    ('min_delta: equal-values guard returns 1', P, 'return 0 if top == base else top - base', 'return 1 if top == base else top - base', 'broken', 'C05'),
     ('min_npix strict', P, 'return len(structure.values()) >= npix', 'return len(structure.values()) > npix', 'broken', 'C05'),
     ('min_npix off by one', P, 'return len(structure.values()) >= npix', 'return len(structure.values()) + 1 >= npix', 'broken', 'C05'),
     ('min_peak strict', P, 'return structure.vmax >= peak', 'return structure.vmax > peak', 'broken', 'C05'),
@@ -71,15 +72,18 @@ CASES = [
     ('trunk drop inverted', D, 'if not is_independent(leaf):', 'if is_independent(leaf):', 'broken', 'C05'),
     ('wrap: boundary included', A, 'np.where(index_array < shape/2,', 'np.where(index_array <= shape/2,', 'broken', 'C12'),
     ('wrap: taken when not smaller', A, 'if np.ptp(i2) < np.ptp(index_array):', 'if np.ptp(i2) <= np.ptp(index_array):', 'broken', 'C12'),
+    ('add_pixel: caches not reset', S, '        self._smallest_index = min(self._smallest_index, index)\n        self._reset_cache()', '        self._smallest_index = min(self._smallest_index, index)', 'broken', 'C06'),
+    ('to_prune: scan goes on after a hit', D, '            yield struct\n            break', '            yield struct\n            pass', 'broken', 'C07'),
+    ('trunk drop: id table keeps the leaf', D, '            keep_structures.pop(leaf.idx)\n', '', 'broken', 'C07'),
     # ---- rewrites that keep the meaning
     ('wrap: sides flipped', A, 'np.where(index_array < shape/2,', 'np.where(shape/2 > index_array,', 'ok', 'C12'),
     ('two-sibling rule: >= 3', D, 'elif len(siblings) > 2:', 'elif len(siblings) >= 3:', 'ok', 'C08'),
     ('flux: De Morgan', X, 'if wavelength is not None and not wavelength.unit.is_equivalent(u.m):',
      'if not (wavelength is None or wavelength.unit.is_equivalent(u.m)):', 'ok', 'C13'),
-    ('min_delta child rearranged', P, '(_py(structure.height) - _py(structure.parent.height)) >= delta',
+    ('min_delta child rearranged', P, '_diff(_py(structure.height), _py(structure.parent.height)) >= delta',
      '_py(structure.height) >= _py(structure.parent.height) + delta', 'ok', 'C07'),
-    ('min_delta merge negated', P, 'return (_py(structure.vmax) - _py(value)) >= delta',
-     'return not ((_py(structure.vmax) - _py(value)) < delta)', 'ok', 'C04'),
+    ('min_delta merge negated', P, 'return _diff(_py(structure.vmax), _py(value)) >= delta',
+     'return not (_diff(_py(structure.vmax), _py(value)) < delta)', 'ok', 'C04'),
     ('min_npix flipped sides', P, 'return len(structure.values()) >= npix', 'return npix <= len(structure.values())', 'ok', 'C05'),
     ('threshold flipped sides', D, 'keep = self.data > threshold', 'keep = threshold < self.data', 'ok', 'C01'),
     ('insignificant reordered', D, '(structure.vmax == data_value or\n                          not is_independent(structure, index=coord,\n                                             value=data_value))]',
@@ -87,7 +91,7 @@ CASES = [
     ('prune: inherit written with else', D, 'if min_delta == 0:\n            min_delta = self.params["min_delta"]',
      'if min_delta != 0:\n            pass\n        else:\n            min_delta = self.params["min_delta"]', 'ok', 'C07'),
     ('prune: >= instead of not <', D, 'if min_npix < self.params["min_npix"]:\n            warnings.warn("New min_npix (%s) is less than the current min_npix \\\n                           (%s). No leaves can be pruned."\n                          % (min_npix, self.params["min_npix"]))\n        else:  # Updates params\n            self.params["min_npix"] = min_npix',
-     'if min_npix >= self.params["min_npix"]:\n            self.params["min_npix"] = min_npix', 'ok', 'C07'),
+     'if min_npix >= self.params["min_npix"]:\n            self.params["min_npix"] = min_npix\n        else:\n            warnings.warn("New min_npix is less than the current min_npix")', 'ok', 'C07'),
     ('structure_at: >= 0', D, 'if idx > -1:', 'if idx >= 0:', 'ok', 'C06'),
     ('wrap: == -1 instead of < 0', D, 'if c[a] < 0:', 'if c[a] <= -1:', 'ok', 'C17'),
     ('add_pixel: min argument order', S, 'self._vmin, self._vmax = min(value, self.vmin), max(value, self.vmax)',
